@@ -1,10 +1,24 @@
 import nodettl as N
+def extreme_expiries(rng):
+    """manifests whose expiry lies centuries in the past or future (the ends of what the codec carries), through every arrival path: the
+    long-expired ones must be refused without a trace, the far-future ones capped"""
+    out = []
+    for k, eabs in enumerate([-9223372036, -9223372035, -9100000000, -8000000000, -7523372037, -7523372036, -7523372035, -7000000000, -2208988800, 0,
+                              9223372036, 9223372035, 9000000000]):
+        line, d = N.reset_line(rng)
+        lines = [line, "mk m=1 c=5 b=3 e=0 eabs=%d" % eabs, "ingest m=1", "announce m=1 p=1 ttl=%d assign=1" % rng.choice([0, 9, 100000]), "recv m=1", "chunkin m=1 p=2",
+                 "request m=1 p=3", "fetch c=5", "peerreq c=5 p=2", "list", "tick", "adv ms=%d" % (d["max"] * 1000 + 1000), "tick", "drain"]
+        out.append(lines)
+    return out
+
+
 def run(chk):
     thorough = chk.tier == "thorough"
     N.model_check(chk, dev=[("dev_nocap", "C03_Derived"), ("dev_keeplater", "C03_ArrivalWrites")], reach=[("reach_farfuture", "Reach_FarFutureCapped"), ("reach_pending", "Reach_PendingFetch")])
     N.run_driver(chk, N.model_sequences(chk, 6000 if thorough else 600), "tlc-state-cover")
     N.run_driver(chk, N.random_behaviours(chk.rng, 4000 if thorough else 300, "c03"), "random-manifest-arrivals")
     N.run_driver(chk, N.random_behaviours(chk.rng, 2000 if thorough else 150, "c05"), "random-with-ticks")
+    N.run_driver(chk, extreme_expiries(chk.rng), "extreme-expiries")
     import livetests, system
     system.run(chk, 600 if thorough else 80)   # System.tla schedules on 2-3 real nodes: arbitrary message order, loss, late delivery
     if thorough or True:
